@@ -770,9 +770,240 @@ def case_blocks(ctx, seq):
     run(ctx, body_blocks, inputs, {"seq": seq})
 
 
+# ------------------------------------------------------------------------------------------------ level H: histories on one linear object
+
+def body_history(inp, mesh, change):
+    """two-step history on the SAME linear object: observe its block (directly and through a new inversion), change its
+    regularization, observe again.  The state the user observes after the change must satisfy the property:
+    none: Constant(c1) -> None;  add: None -> Constant(c2);  replace: Constant(c1) -> Constant(c2);  coefficient: reg.coefficient = c2"""
+    import autoarray as aa
+    n, pairs = mesh_reference(mesh)
+    x = np.asarray(inp["x"]).reshape(-1)[:n]
+    c1, c2 = inp["c1"], inp["c2"]
+    A, E = {}, {}
+    obj = build_mapper(mesh, IMG)
+
+    def observe(tag, coef):
+        if coef is None:
+            ref, qref = np.zeros((n, n)), 0.0
+        else:
+            ref = laplacian_ref(n, pairs, lambda i, j: coef * coef)
+            qref = pair_form(n, pairs, lambda i, j: coef * coef, x)
+        H = hx.attempt(lambda: np.asarray(obj.regularization_matrix))
+        A[tag + ".linear_obj.entries"] = H
+        E[tag + ".linear_obj.entries"] = ref
+        if not isinstance(H, hx.Raised) and tuple(H.shape) == (n, n):
+            A[tag + ".linear_obj.quadratic_form"] = x @ H @ x
+            E[tag + ".linear_obj.quadratic_form"] = qref
+        # a NEW inversion built from [unregularized 1-parameter object, this object]
+        inv = aa.m.MockInversion(linear_obj_list=[aa.m.MockLinearObj(parameters=1, regularization=None), obj])
+        full = np.zeros((n + 1, n + 1), dtype=object)
+        full[1:, 1:] = ref
+        A[tag + ".inversion.full"] = hx.attempt(lambda: np.asarray(inv.regularization_matrix))
+        E[tag + ".inversion.full"] = full
+        inv2 = aa.m.MockInversion(linear_obj_list=[aa.m.MockLinearObj(parameters=1, regularization=None), obj])
+        red = hx.attempt(lambda: np.asarray(inv2.regularization_matrix_reduced))
+        A[tag + ".inversion.reduced.shape"] = list(red.shape) if not isinstance(red, hx.Raised) else repr(red)
+        E[tag + ".inversion.reduced.shape"] = [0, 0] if coef is None else [n, n]
+        if coef is not None:
+            A[tag + ".inversion.reduced"] = red
+            E[tag + ".inversion.reduced"] = ref
+
+    first = None if change == "add" else c1
+    obj.regularization = None if first is None else aa.reg.Constant(coefficient=c1)
+    observe("first", first)
+    if change == "none":
+        obj.regularization = None
+        second = None
+    elif change in ("add", "replace"):
+        obj.regularization = aa.reg.Constant(coefficient=c2)
+        second = c2
+    else:
+        obj.regularization.coefficient = c2
+        second = c2
+    observe("second", second)
+    return A, E
+
+
+def case_history(ctx, mesh, change):
+    n, _ = mesh_reference(mesh)
+    inputs = {"c1": V.real("c1"), "c2": V.real("c2"), "x": V.real_array("x", (n,))}
+    _positive(ctx, inputs["c1"], inputs["c2"])
+    ctx.set_case(mesh=str(mesh), change=change)
+    run(ctx, body_history, inputs, {"mesh": mesh, "change": change})
+
+
+# ------------------------------------------------------------------------------------------------ level G: kernel schemes - ASSEMBLY only
+
+POINTS3 = "sym3"          # three mesh points with symbolic coordinates
+
+
+def _is_symv(v):
+    return isinstance(v, (V.SymReal, V.SymInt))
+
+
+def _exp(v):
+    return V.sym_float(v).exp() if _is_symv(v) else np.exp(v)
+
+
+def _sqrt(v):
+    return V.sym_float(v).sqrt() if _is_symv(v) else np.sqrt(v)
+
+
+def mesh_points(mesh, inp):
+    if mesh[0] == "sympts":
+        return np.asarray(inp["pts"]).reshape(-1, 2)
+    key = ("points", tuple(mesh))
+    if key not in _CACHE:
+        with _Native():
+            _, _, grid = image_parts(IMG)
+            _CACHE[key] = np.array(mesh_grid_from(mesh, grid), dtype=float).reshape(-1, 2)
+    return _CACHE[key]
+
+
+def cov_ref(kind, pts, s, symbolic):
+    """covariance of the property's kernel for EVERY pair: gauss exp(-d^2/(2 s^2)), exp exp(-d/s); diagonal exp(0) + ridge.
+    For concrete points the float distance is formed exactly as numpy does (sqrt, then square) so that the arguments of the
+    uninterpreted exp agree as rationals; for symbolic points the squared distance is used directly (gauss)."""
+    n = len(pts)
+    C = np.zeros((n, n), dtype=object)
+    one = 1.0     # exp(-0/(2 s^2)): the proxy layer folds 0/x to 0.0, numpy gives exp(0.0) = 1.0, so the diagonal is the float 1e-8 + 1.0
+    for i in range(n):
+        for j in range(n):
+            if i == j:
+                C[i, j] = RIDGE + one
+                continue
+            d2 = (pts[i][1] - pts[j][1]) ** 2 + (pts[i][0] - pts[j][0]) ** 2
+            if kind == "gauss":
+                if _is_symv(d2):
+                    C[i, j] = _exp(-1.0 * d2 / (2 * s ** 2))
+                else:
+                    C[i, j] = _exp(-1.0 * np.sqrt(d2) ** 2 / (2 * s ** 2))
+            else:
+                C[i, j] = _exp(-1.0 * _sqrt(d2) / s)
+    return C
+
+
+def _cov_fn(kind):
+    from autoarray.inversion.regularization import gaussian_kernel, exponential_kernel
+    return gaussian_kernel.gauss_cov_matrix_from if kind == "gauss" else exponential_kernel.exp_cov_matrix_from
+
+
+class _NPInv:
+    """stands in for the `np` global of a kernel-scheme module during one call: records the argument of np.linalg.inv; for a
+    proxy matrix it returns a matrix M of fresh reals under the contract C @ M = I = M @ C (what an inverse is)"""
+
+    def __init__(self, orig, log):
+        self._orig, self._log = orig, log
+        self.linalg = self
+
+    def __getattr__(self, name):
+        return getattr(self._orig, name)
+
+    def inv(self, a):
+        from symx import shim
+        a = np.asarray(hx.unwrap(a))
+        if not shim.has_sym(a):
+            r = np.linalg.inv(shim.normalise(a))
+            self._log.append((a, r))
+            return r
+        ctx = V.ctx()
+        n = a.shape[0]
+        M = np.empty((n, n), dtype=object)
+        for i in range(n):
+            for j in range(n):
+                M[i, j] = V.SymReal(ctx.fresh_real("inv"))
+        P, Q = a @ M, M @ a
+        for i in range(n):
+            for j in range(n):
+                d = 1 if i == j else 0
+                ctx.assume(V.to_real_term(P[i, j]) == d)
+                ctx.assume(V.to_real_term(Q[i, j]) == d)
+        self._log.append((a, M))
+        return M
+
+
+def body_cov(inp, mesh, kind, cls=False):
+    """kernel schemes, assembly only: (K) gauss_cov_matrix_from / exp_cov_matrix_from entrywise against the kernel for every pair;
+    (class) the matrix handed to np.linalg.inv is that covariance and the result is coefficient * inverse(covariance)"""
+    import autoarray as aa
+    from autoarray.inversion.regularization import gaussian_kernel, exponential_kernel
+    s = inp["scale"]
+    symbolic = _is_symv(s)
+    A, E = {}, {}
+    if not cls:
+        pts = mesh_points(mesh, inp)
+        n = len(pts)
+        C = hx.attempt(_cov_fn(kind), scale=s, pixel_points=pts)
+        if isinstance(C, hx.Raised):
+            A["cov.no_exception"] = repr(C) + C.msg
+            E["cov.no_exception"] = "ok"
+            return A, E
+        C = np.asarray(hx.unwrap(C))
+        A["cov.shape"] = [int(v) for v in C.shape]
+        E["cov.shape"] = [n, n]
+        A["cov.entries"] = C
+        E["cov.entries"] = cov_ref(kind, pts, s, symbolic)
+        A["cov.symmetric"] = C - C.T
+        E["cov.symmetric"] = np.zeros((n, n))
+        return A, E
+    n, _ = mesh_reference(mesh)
+    mapper = build_mapper(mesh, IMG)
+    pts = mesh_points(mesh, inp)
+    c = inp["c"]
+    mod = gaussian_kernel if kind == "gauss" else exponential_kernel
+    reg = (aa.reg.GaussianKernel if kind == "gauss" else aa.reg.ExponentialKernel)(coefficient=c, scale=s)
+    log = []
+    orig = mod.np
+    mod.np = _NPInv(orig, log)
+    try:
+        H = hx.attempt(reg.regularization_matrix_from, linear_obj=mapper)
+    finally:
+        mod.np = orig
+    if isinstance(H, hx.Raised) or len(log) != 1:
+        A["kernel.no_exception_one_inverse"] = repr(H) + " inv calls: %d" % len(log)
+        E["kernel.no_exception_one_inverse"] = "ok"
+        return A, E
+    H = np.asarray(hx.unwrap(H))
+    A["kernel.shape"] = [int(v) for v in H.shape]
+    E["kernel.shape"] = [n, n]
+    A["kernel.inverted_matrix"] = log[0][0]
+    E["kernel.inverted_matrix"] = cov_ref(kind, pts, s, symbolic)
+    A["kernel.coefficient_times_inverse"] = H
+    E["kernel.coefficient_times_inverse"] = c * log[0][1]
+    return A, E
+
+
+def case_cov(ctx, mesh, kind, cls=False, window=False):
+    s = V.real("scale")
+    _positive(ctx, s)
+    inputs = {"scale": s}
+    if cls:
+        inputs["c"] = V.real("c")
+        _positive(ctx, inputs["c"])
+    if mesh[0] == "sympts":
+        inputs["pts"] = V.real_array("p", (mesh[1], 2))
+    pts = mesh_points(mesh, inputs)
+    if window:
+        # sub-case in which a dropped pair is visible in float64: every distance is at most 6.5 scales (exp(-6.5^2/2) = 7e-10);
+        # the unrestricted case carries the claim, this one makes counterexamples replayable
+        if mesh[0] == "sympts":
+            for i in range(len(pts)):
+                for j in range(i):
+                    d2 = (pts[i][1] - pts[j][1]) ** 2 + (pts[i][0] - pts[j][0]) ** 2
+                    ctx.assume(d2.t <= V.rval(6.5 * 6.5) * s.t * s.t)
+        else:
+            dmax = max(float(np.sqrt(((p - q) ** 2).sum())) for p in pts for q in pts)
+            ctx.assume(s.t * V.rval(6.5) >= V.rval(dmax))
+    ctx.set_case(mesh=str(mesh), kind=kind, cls=cls, window=window)
+    # an uninterpreted exp cannot be compared with the native run under a model: not cross-validated (replay still runs natively)
+    run(ctx, body_cov, inputs, {"mesh": mesh, "kind": kind, "cls": cls}, validate=False)
+
+
 # ------------------------------------------------------------------------------------------------ cases / replay
 
-BODIES = {"case_kernels": body_kernels, "case_scheme": body_scheme, "case_split": body_split, "case_blocks": body_blocks}
+BODIES = {"case_kernels": body_kernels, "case_scheme": body_scheme, "case_split": body_split, "case_blocks": body_blocks,
+          "case_history": body_history, "case_cov": body_cov}
 
 
 def cases(tier):
@@ -830,6 +1061,18 @@ def cases(tier):
         seqs += [["C", "C"], ["C", "N2", "C"], ["N1", "C", "S3", "N2"], ["F3", "C", "N1", "F3"]]
     for s in seqs:
         out.append(("case_blocks", {"seq": s}))
+    # histories on one linear object
+    for m in [["rect", 3, 3], ["chain", 3]] + ([] if q else [["del", "D6"], ["rect", 3, 4]]):
+        for change in ("none", "add", "replace", "coefficient"):
+            out.append(("case_history", {"mesh": m, "change": change}))
+    # kernel schemes: covariance assembly for every pair / coefficient * inverse of it
+    for kind in ("gauss", "exp"):
+        for m in [["rect", 3, 3], ["del", "D5"], ["sympts", 3]] + ([] if q else [["rect", 4, 4], ["del", "D9"], ["sympts", 4]]):
+            for window in (False, True):
+                out.append(("case_cov", {"mesh": m, "kind": kind, "window": window}))
+        for m in [["rect", 3, 3], ["del", "D5"]] + ([] if q else [["rect", 3, 4], ["del", "D7"]]):
+            for window in (False, True):
+                out.append(("case_cov", {"mesh": m, "kind": kind, "cls": True, "window": window}))
     return out
 
 
